@@ -7,5 +7,5 @@ export CARGO_NET_OFFLINE=true
 python3 tools/extract_consts.py >/dev/null
 cp /repo/Cargo.lock harness/Cargo.lock 2>/dev/null || true
 (cd lean && lake build Woodpile wpmodel)
-(cd harness && cargo build --release --offline)
+(cd harness && cargo build --release --offline && cargo build --profile noassert --offline)
 echo "setup done"
